@@ -93,32 +93,35 @@ def proof_stage(prop, tier, log):
     if rc0 != 0:
         res["problems"].append("gen_consts failed (coq/Gen/Consts.v removed): " + out0[-800:])
     coq_project()
-    targets = [prop["props_file"][:-2] + ".vo"] + [t[:-2] + ".vo" for t in prop.get("extra_coq", [])]
+    targets = [t[:-2] + ".vo" for t in [prop["props_file"]] + prop.get("props_extra", []) + prop.get("extra_coq", [])]
     rc, out, dt = sh("make -j16 " + " ".join(targets), cwd=COQ, timeout=6000)
     log.append("== make (%.1fs) rc=%d\n%s" % (dt, rc, out[-3000:]))
     if rc != 0:
         res["problems"].append("coq build failed: " + out[-1500:])
     # forbidden constructs anywhere in the development
-    for f in coq_closure([prop["props_file"]] + prop.get("extra_coq", []) + (["Extract/%s.v" % prop["extract"]] if prop.get("extract") else [])):
+    for f in coq_closure([prop["props_file"]] + prop.get("props_extra", []) + prop.get("extra_coq", []) + (["Extract/%s.v" % prop["extract"]] if prop.get("extract") else [])):
         src = re.sub(r"\(\*.*?\*\)", "", open(f).read(), flags=re.S)
         m = FORBIDDEN.search(src)
         if m:
             res["problems"].append("forbidden construct %r in %s" % (m.group(0), os.path.relpath(f, VERIF)))
-    pf = os.path.join(COQ, prop["props_file"])
-    src = open(pf).read()
-    theorems = re.findall(r"^\s*(?:Theorem|Corollary)\s+([A-Za-z0-9_']+)", src, flags=re.M)
+    # statement files: Props/Cxx.v plus optional further statement-only files ("props_extra"), all treated alike
+    pfiles = [prop["props_file"]] + prop.get("props_extra", [])
+    theorems = []
+    for pfile in pfiles:
+        theorems += re.findall(r"^\s*(?:Theorem|Corollary)\s+([A-Za-z0-9_']+)", open(os.path.join(COQ, pfile)).read(), flags=re.M)
     res["theorems"] = theorems
     res["obligations"] = len(theorems)
-    res["checker_cmd"] = "make -C coq -j16 && coqc -Q coq SF coq/" + prop["props_file"]
+    res["checker_cmd"] = "make -C coq -j16 && " + " && ".join("coqc -Q coq SF coq/" + f for f in pfiles)
     if rc == 0:
-        rc2, out2, dt2 = sh(["coqc", "-Q", ".", "SF", "-w", "-notation-overridden", prop["props_file"]], cwd=COQ, timeout=1200)
-        log.append("== coqc %s (%.1fs) rc=%d\n%s" % (prop["props_file"], dt2, rc2, out2[-4000:]))
-        if rc2 != 0:
-            res["problems"].append("Props file does not compile: " + out2[-1500:])
-        else:
+        n_print = 0
+        for pfile in pfiles:
+            rc2, out2, dt2 = sh(["coqc", "-Q", ".", "SF", "-w", "-notation-overridden", pfile], cwd=COQ, timeout=1200)
+            log.append("== coqc %s (%.1fs) rc=%d\n%s" % (pfile, dt2, rc2, out2[-4000:]))
+            if rc2 != 0:
+                res["problems"].append("Props file %s does not compile: " % pfile + out2[-1500:])
+                continue
             # Print Assumptions blocks, in order of appearance
             blocks = re.split(r"(?=Closed under the global context|Axioms:)", out2)
-            n_print = 0
             for b in blocks:
                 if b.startswith("Closed under the global context"):
                     n_print += 1
@@ -132,15 +135,15 @@ def proof_stage(prop, tier, log):
                             res["axioms"].setdefault("stdlib", set()).add(nme)
                         else:
                             res["problems"].append("theorem depends on non-stdlib axiom " + nme)
-            if n_print < len(theorems):
-                res["problems"].append("only %d Print Assumptions for %d theorems" % (n_print, len(theorems)))
-            if not [p for p in res["problems"]]:
-                res["discharged"] = len(theorems)
+        if n_print < len(theorems):
+            res["problems"].append("only %d Print Assumptions for %d theorems" % (n_print, len(theorems)))
+        if not [p for p in res["problems"]]:
+            res["discharged"] = len(theorems)
     if tier == "thorough" and rc == 0 and not res["problems"] and prop.get("coqchk", "run") == "skip":
         log.append("== coqchk skipped for this property: " + prop.get("coqchk_note", ""))
         res["checker_cmd"] += "   (coqchk not run: %s)" % prop.get("coqchk_note", "")
     elif tier == "thorough" and rc == 0 and not res["problems"]:
-        vo = prop["props_file"].replace("/", ".")[:-2]
+        vo = " SF.".join(f.replace("/", ".")[:-2] for f in [prop["props_file"]] + prop.get("props_extra", []))
         rc3, out3, dt3 = sh("coqchk -silent -o -Q . SF SF." + vo, cwd=COQ, timeout=6000)
         log.append("== coqchk (%.1fs) rc=%d\n%s" % (dt3, rc3, out3[-3000:]))
         res["checker_cmd"] += " && coqchk -silent -o -Q coq SF SF." + vo
